@@ -45,6 +45,31 @@ revalidate(struct lyd_node **tree)
            lyd_validate_all(tree, ctx, 0, NULL);
 }
 
+static int
+has_any(const struct lyd_node *n)
+{
+    for (; n; n = n->next) {
+        if (n->schema && (n->schema->nodetype & LYD_NODE_ANY)) return 1;
+        if (n->schema && (n->schema->nodetype & LYD_NODE_INNER) && has_any(lyd_child(n))) return 1;
+    }
+    return 0;
+}
+
+/* anydata / anyxml values have no canonical in-memory form (XML- and JSON-origin opaque content differ in format and
+ * hints), so trees holding them are compared by their printed XML form (DESIGN.md sec. 8) */
+static int
+same_printed(const struct lyd_node *a, const struct lyd_node *b, int exact)
+{
+    char *x = NULL, *y = NULL;
+    uint32_t o = LYD_PRINT_WITHSIBLINGS | LYD_PRINT_SHRINK | (exact ? LYD_PRINT_WD_IMPL_TAG : LYD_PRINT_WD_ALL);
+    int r;
+
+    if (lyd_print_mem(&x, a, LYD_XML, o) || lyd_print_mem(&y, b, LYD_XML, o)) { free(x); free(y); return 0; }
+    r = !strcmp(x ? x : "", y ? y : "");
+    free(x); free(y);
+    return r;
+}
+
 static char
 cell(const struct lyd_node *orig, LYD_FORMAT fmt, uint32_t wd, int shrink)
 {
@@ -79,7 +104,9 @@ cell(const struct lyd_node *orig, LYD_FORMAT fmt, uint32_t wd, int shrink)
     } else if (lyd_validate_all(&back, ctx, 0, NULL)) {
         res = 'R';
     } else if (lyd_compare_siblings(orig, back, LYD_COMPARE_FULL_RECURSION | (exact ? LYD_COMPARE_DEFAULTS : 0))) {
-        res = '!';
+        if (!has_any(orig) || !same_printed(orig, back, exact && have_wd)) {
+            res = '!';
+        }
     }
     ly_in_free(in, 0);
     lyd_free_all(back);
@@ -259,6 +286,37 @@ main(void)
             vp_begin(id, "ok"); vp_field_hex(fmt == LYD_LYB ? "" : (mem ? mem : ""), fmt == LYD_LYB ? 0 : (mem ? strlen(mem) : 0));
             vp_field_hex(a ? a : "", a ? strlen(a) : 0); vp_field_hex(b ? b : "", b ? strlen(b) : 0); vp_field_hex(emsg, strlen(emsg)); vp_end();
             free(a); free(b); free(mem); free(d); lyd_free_all(t); lyd_free_all(back);
+        } else if (!strcmp(op, "rtop") && r.ntok == 6 && ctx) {
+            /* rtop <rpc|notif> <xml|json> <hex>: operation round trip in the three formats -> ok <3 cells> <xml-hex> <json-hex> */
+            enum lyd_type ty = !strcmp(r.tok[3], "rpc") ? LYD_TYPE_RPC_YANG : LYD_TYPE_NOTIF_YANG;
+            LYD_FORMAT fin = !strcmp(r.tok[4], "xml") ? LYD_XML : LYD_JSON;
+            char *d = vp_unhex(r.tok[5], NULL), m[4] = "===", *x = NULL, *j = NULL;
+            struct lyd_node *t = NULL, *opn = NULL;
+            struct ly_in *in = NULL;
+            int f;
+
+            ly_in_new_memory(d, &in);
+            if (lyd_parse_op(ctx, NULL, in, fin, ty, &t, &opn)) {
+                vp_reply(id, "err Parse");
+            } else {
+                for (f = 0; f < 3; f++) {
+                    LYD_FORMAT fmt = f == 0 ? LYD_XML : f == 1 ? LYD_JSON : LYD_LYB;
+                    char *mem = NULL;
+                    struct lyd_node *bt = NULL, *bo = NULL;
+                    struct ly_in *in2 = NULL;
+                    if (lyd_print_mem(&mem, t, fmt, LYD_PRINT_SHRINK)) { m[f] = 'P'; free(mem); continue; }
+                    ly_in_new_memory(mem ? mem : "", &in2);
+                    if (lyd_parse_op(ctx, NULL, in2, fmt, ty, &bt, &bo)) m[f] = 'R';
+                    else if (lyd_compare_siblings(t, bt, LYD_COMPARE_FULL_RECURSION | LYD_COMPARE_DEFAULTS)) m[f] = '!';
+                    else if (!bo || !opn || strcmp(LYD_NAME(bo), LYD_NAME(opn))) m[f] = '!';
+                    ly_in_free(in2, 0); lyd_free_all(bt); free(mem);
+                }
+                x = print_mem(t, LYD_XML, LYD_PRINT_SHRINK);
+                j = print_mem(t, LYD_JSON, LYD_PRINT_SHRINK);
+                vp_begin(id, "ok"); vp_field_s(m);
+                vp_field_hex(x ? x : "", x ? strlen(x) : 0); vp_field_hex(j ? j : "", j ? strlen(j) : 0); vp_end();
+            }
+            ly_in_free(in, 0); lyd_free_all(t); free(x); free(j); free(d);
         } else if (!strcmp(op, "leakcheck")) {
             vp_reply(id, "ok %d", VP_LEAKCHECK() ? 1 : 0);
         } else if (!strcmp(op, "cross") && r.ntok == 5 && ctx) {
@@ -270,7 +328,8 @@ main(void)
             } else if (lyd_parse_data_mem(ctx, j, LYD_JSON, LYD_PARSE_STRICT, LYD_VALIDATE_PRESENT, &tj)) {
                 vp_reply(id, "err ParseJson");
             } else {
-                vp_reply(id, "ok %d", lyd_compare_siblings(tx, tj, LYD_COMPARE_FULL_RECURSION | LYD_COMPARE_DEFAULTS) == LY_SUCCESS);
+                vp_reply(id, "ok %d", (lyd_compare_siblings(tx, tj, LYD_COMPARE_FULL_RECURSION | LYD_COMPARE_DEFAULTS) == LY_SUCCESS) ||
+                        (has_any(tx) && same_printed(tx, tj, have_wd)));
             }
             lyd_free_all(tx); lyd_free_all(tj); free(x); free(j);
         } else {
